@@ -438,6 +438,39 @@ func (d *robust) height() error {
 				}
 			}
 		}
+		// proposals whose list of system transactions is cut short at some position (count byte adjusted or not), re-hashed and
+		// genuinely signed: with transactions of both modules due, the list may hold all of the bridge's and too few of the rest
+		if h > c.InitialHeight {
+			if pl, err := b.C.HonestPayload(0, 1); err == nil && len(pl.ExtraData) > 0 && int(pl.ExtraData[0]) > 0 {
+				n := int(pl.ExtraData[0])
+				for k := 0; k < 3; k++ {
+					cut := r.Intn(n)
+					cp := *pl
+					cp.Transactions = append([][]byte{}, pl.Transactions[:cut]...)
+					cp.ExtraData = append([]byte{}, pl.ExtraData...)
+					if r.Intn(2) == 0 {
+						cp.ExtraData[0] = byte(cut)
+					}
+					hh := sim.PayloadHash(goatmodtypes.PayloadToExecutableData(&cp), common.BytesToHash(cp.BeaconRoot), cp.Requests)
+					cp.BlockHash = hh[:]
+					tx0, err := b.C.BlockTx(0, h, &cp, sim.SignOpts{})
+					if err != nil {
+						continue
+					}
+					txs := [][]byte{tx0}
+					for _, t := range bp.Txs {
+						txs = append(txs, t.Bytes)
+					}
+					blkC := &sim.Block{Height: h, Time: b.C.TimeAt(b.Tick), Proposer: 0, Votes: votes, Misbehavior: lp.Misb, Txs: txs}
+					b.C.Eng.NextRequests = reqs
+					d.journal(fmt.Sprintf("process-cut:%d/%d", cut, n), txs)
+					pr, perr := b.C.Process(blkC)
+					b.C.Eng.TakeLog()
+					d.w.Emit(Ev{"ev": "input", "run": d.run, "where": "process", "kind": "proposal/cut", "how": fmt.Sprintf("%d/%d", cut, n), "errored": perr != nil,
+						"code": boolCode(perr == nil && pr.Status == abci.ResponseProcessProposal_ACCEPT)})
+				}
+			}
+		}
 		// arbitrary proposals
 		for k := 0; k < 2; k++ {
 			var txs [][]byte
